@@ -177,6 +177,9 @@ def run(tier, seed, replay=None):
     mod = pyload.module("digital_rf_hdf5")
     read_rows(ck, mod, 3 if tier == "thorough" else 2)
     combine(ck, mod, 3)
+    from checks import bounds_common
+    bounds_common.add_bounds(ck, mod, tier, "C08")
+    ck.replayers["bounds."] = replay_reader
     for nm in ("DigitalRFReader.read", "DigitalRFReader.get_continuous_blocks", "DigitalRFReader.read_vector_raw", "DigitalRFReader._get_file_list",
                "DigitalRFReader.get_bounds", "_top_level_dir_properties._get_bounds"):
         ck.add_function(pyload.source_info(mod, nm))
@@ -189,6 +192,6 @@ def run(tier, seed, replay=None):
                             r["cases"], r["failures"]))
     ck.trust({"h5py slicing / numpy": "assumed (rf_data[a:b] returns rows a..b-1; concatenate preserves order)", "sorted(dict.items())": "executed (CPython)"})
     ck.assumptions += ["every file satisfies the per-file index invariant (proved for the writer in C06)",
-                       "_get_file_list, read, read_vector*, get_bounds are covered by the bounded differential only (labelled bounded)"]
+                       "_get_file_list, read, read_vector* are covered by the bounded differential only (labelled bounded); get_bounds: file edges, directory scan and merge are under contract, list_drf.ilsdrf's ordering is assumed there (C14)"]
     ck.extra["explanation"] = "row arithmetic of _read and the merge of _combine_blocks: path-complete symbolic execution of the real methods with symbolic index rows / block keys; whole-reader coherence: bounded differential against an exact model"
     return ck
